@@ -180,6 +180,10 @@ pub struct Run {
     pub assumptions: Vec<String>,
     pub guards: Vec<(String, bool, String)>,
     pub level: String,
+    /// C20 only: the subject's nondeterminism is what is being looked for, so a disagreement
+    /// that does not come back in two confirmation runs (a rare draw) is dropped as unconfirmed
+    /// instead of voiding the verdict - as long as some other disagreement does confirm
+    pub rare_disagreements_tolerated: bool,
 }
 
 impl Run {
@@ -193,6 +197,7 @@ impl Run {
             assumptions: vec![],
             guards: vec![],
             level: "model_checking".to_string(),
+            rare_disagreements_tolerated: false,
         }
     }
     pub fn cov(&mut self, k: &str, v: Value) {
@@ -349,10 +354,16 @@ impl Run {
             machinery_error(&format!("cannot write evidence {}: {e}", evf.display()));
         }
         if !irreproducible.is_empty() {
-            for i in &irreproducible {
-                println!("IRREPRODUCIBLE: {i}");
+            if self.rare_disagreements_tolerated && !viol_lines.is_empty() {
+                for i in &irreproducible {
+                    println!("UNCONFIRMED (seen once, not in two confirmation runs; not reported): {i}");
+                }
+            } else {
+                for i in &irreproducible {
+                    println!("IRREPRODUCIBLE: {i}");
+                }
+                machinery_error("a reported disagreement did not replay identically; no verdict");
             }
-            machinery_error("a reported disagreement did not replay identically; no verdict");
         }
         if !guards_ok {
             for (n, ok, d) in &self.guards {
